@@ -162,6 +162,9 @@ def run_fault_phase(w, case):
         injected += 1
         w.advance(case.get("gap", 1))
     w.advance(15)     # let slow handlers and TOO_BUSY timeouts (5 s slot wait) finish
+    if case["app_kind"] == "threading" and any(o in ("slow", "very-slow") for o in case.get("outcomes", [])):
+        # handlers of one burst run one after the other when the limit is 1: every request seen may take 7 s more
+        w.advance(8 * len(w.requests_seen))
     return injected
 
 
